@@ -226,25 +226,29 @@ class LogConfig(object):
             if (var.is_toc_variable() is False):  # Memory location
                 logger.debug('Logging to raw memory %d, 0x%04X',
                              var.get_storage_and_fetch_byte(), var.address)
-                pk.data.append(struct.pack('<B',
-                                           var.get_storage_and_fetch_byte()))
-                pk.data.append(struct.pack('<I', var.address))
+                if pk.available_data_size() < 5:
+                    # Packet is full
+                    return False, i
+                pk.data += struct.pack('<BI',
+                                       var.get_storage_and_fetch_byte(),
+                                       var.address)
             else:  # Item in TOC
                 element_id = self.cf.log.toc.get_element_id(var.name)
                 logger.debug('Adding %s with id=%d and type=0x%02X',
                              var.name,
                              element_id,
                              var.get_storage_and_fetch_byte())
-                pk.data.append(var.get_storage_and_fetch_byte())
                 if self.useV2:
-                    size_to_add = 2
+                    size_to_add = 3
                     if pk.available_data_size() >= size_to_add:
+                        pk.data.append(var.get_storage_and_fetch_byte())
                         pk.data.append(element_id & 0x0ff)
                         pk.data.append((element_id >> 8) & 0x0ff)
                     else:
                         # Packet is full
                         return False, i
                 else:
+                    pk.data.append(var.get_storage_and_fetch_byte())
                     pk.data.append(element_id)
 
         return True, i
